@@ -97,7 +97,9 @@ STR_RULE = ('New plain strings are words/blanks/the empty string and (30% of the
             'as single replace/insert/append piece) LaTeX source out of lib_edit.SRC_STRS: commands separated from their '
             'argument group by a blank or a line break, a fixed-signature command with a bare token, unbalanced fragments '
             '(\\begin{x}, \\[, {, }, \\foo{), a lone backslash, a comment; a string is spliced in verbatim as one text '
-            'leaf (never parsed). A whole parsed document as one piece (TexSoup(src) itself, lib_edit.DOC_SRCS: blank-only text '
+            'leaf (never parsed). The target itself or its .copy() among its own 2..3 replacement pieces (wrap [x], x!, !x, '
+            'x / x, x alone; lib_edit.self_replacements) for targets in every kind of holder: the text of the pieces at the '
+            'target\'s place. A whole parsed document as one piece (TexSoup(src) itself, lib_edit.DOC_SRCS: blank-only text '
             'between / before / behind its top-level elements, a single blank), alone and among other pieces, for '
             'replace/insert/append: its full text is spliced in (the model splices its elements where the implementation '
             'nests its root, so only the serialisations are compared for these edits). Three pieces inserted at an index '
@@ -181,6 +183,13 @@ def single_edits(base, rng, cap=None):
         for m in EMPTY_PIECES:
             for variant in (1, 0):
                 out.append(('rep', 'rep %s %s' % (L.show_path(path), m), variant, True))
+    # the target itself (or its copy()) among its own replacement pieces: x.replace_with('[', x, ']')
+    for path, x in (targets if cap is None else rng.sample(targets, min(4, len(targets)))):
+        p = L.show_path(path)
+        fam = L.self_replacements(p)
+        for m, aliased in (fam if cap is None else fam[:2] + rng.sample(fam[2:], 2)):
+            for variant in (1, 0):
+                out.append(('rep', 'rep %s %s' % (p, m), variant, True))
     # whole parsed documents handed in as one piece (d:), alone and among other pieces
     if targets:
         dsrc = L.DOC_SRCS if cap is None else rng.sample(L.DOC_SRCS, 3)
@@ -339,7 +348,7 @@ def correspondence(ctx):
 def check_edit(base, before, kind, op, variant):
     """C05 as stated, on the implementation alone.  Returns None or (key, what)."""
     soup = L.clone(base)
-    P = L.Op(op)
+    P = L.Op(op, soup)
     new_text = P.mat_text()
     if kind in ('ins', 'app'):
         _, c, _, _ = L.locate(soup, P.path)
